@@ -57,7 +57,7 @@ ImageFails(drow, cells, cols) ==
       (IF d.st # x.st THEN {[c |-> c, what |-> "null/absent/value state", typ |-> col.typ]}
        ELSE IF x.st = "val" /\ ~CellMatches(col.typ, col.metab, x.bytes, col.uns, x.tz, d)
             THEN {[c |-> c, what |-> "value", typ |-> col.typ]}
-       ELSE IF x.st # "val" /\ d.hasdata THEN {[c |-> c, what |-> "data on NULL/absent", typ |-> col.typ]}
+       ELSE IF x.st = "null" /\ d.hasdata THEN {[c |-> c, what |-> "data on NULL", typ |-> col.typ]}
        ELSE {})
     : c \in 1..Len(cols)}
 
@@ -241,10 +241,13 @@ MonC07(S) ==
         sp   == SetPosFor(S, a)
     IN IF Len(cmds) = 0 THEN {}      \* no connection was established in this attempt
        ELSE
-        (IF \/ (Len(cmds) = 2 /\ cmds[1].kind = "query" /\ cmds[2].kind = "dump")
-            \/ (Len(cmds) = 1 /\ cmds[1].kind = "query" /\ ~cmds[1].ok)       \* the SET was rejected: nothing may follow
-            \/ (Len(cmds) = 1 /\ cmds[1].kind = "query" /\ Plan(S, a).connfault = "set_then_reset")   \* the master dropped the connection itself
-         THEN {} ELSE {Z("C07.sequence", S, "commands are not exactly <<SET query, one dump request>>", a, Len(cmds))}) \cup
+        \* exactly one dump request and nothing after it (other queries before it are not forbidden); no dump at all only
+        \* when the master rejected the SET or dropped the connection itself before the request could arrive
+        (LET dumps == {i \in 1..Len(cmds) : cmds[i].kind = "dump"}
+             noDumpOk == (\E i \in 1..Len(cmds) : cmds[i].kind = "query" /\ ~cmds[i].ok) \/ Plan(S, a).connfault = "set_then_reset"
+         IN IF \/ (Cardinality(dumps) = 1 /\ \A i \in dumps : i = Len(cmds))
+               \/ (dumps = {} /\ noDumpOk)
+            THEN {} ELSE {Z("C07.sequence", S, "not exactly one dump request as the last command of the attempt", a, Cardinality(dumps))}) \cup
         (IF \E i \in 1..Len(cmds) : cmds[i].kind = "query" /\ ~cmds[i].ok /\ \E j \in 1..Len(cmds) : j > i /\ cmds[j].kind = "dump"
          THEN {Z("C07.checksum-first", S, "dump requested although SET @master_binlog_checksum was rejected by the master", a, 0)} ELSE {}) \cup
         (IF Len(cmds) = 1 \/ \E i \in 1..Len(cmds) : cmds[i].kind = "query" /\ Contains(LowerSeq(cmds[i].sql), WChecksum)
@@ -314,10 +317,13 @@ MonC05(S) ==
        (IF Len(sk) = 1 /\ Len(cmds) > 0 /\ ~sk[1].masterEnded /\ ~sk[1].peerClosed
         THEN {Z("C05.connection-closed", S, "connection to the master still open after Stream returned", a, 0)} ELSE {}) \cup
        (IF Len(gr) = 1 /\ gr[1].n > 0 THEN {Z("C05.no-goroutine-left", S, "library goroutine remains after Stream returned", a, gr[1].n)} ELSE {}) \cup
-       {Z("C05.handler-discipline", S, "handler called on another goroutine or re-entered", a, ds[i].k) :
-          i \in {j \in 1..Len(ds) : ds[j].g # ds[j].callerg \/ ds[j].nested # 1}} \cup
+       \* (the handler need not run on the caller's goroutine; it must run while Stream runs, one call at a time)
+       {Z("C05.handler-discipline", S, "handler re-entered: two calls at a time", a, ds[i].k) :
+          i \in {j \in 1..Len(ds) : ds[j].nested # 1}} \cup
        {Z("C05.handler-discipline", S, "handler called after Stream returned", a, Trace[i].k) :
-          i \in {j \in S.from..S.to : Trace[j].ev = "deliver" /\ Trace[j].att = a /\ retIdx > 0 /\ j > retIdx}}
+          i \in {j \in S.from..S.to : Trace[j].ev = "deliver" /\ Trace[j].att = a /\ retIdx > 0 /\ j > retIdx}} \cup
+       {Z("C05.handler-discipline", S, "handler still running when Stream returned", a, Trace[i].k) :
+          i \in {j \in S.from..S.to : Trace[j].ev = "handlerReturn" /\ Trace[j].att = a /\ retIdx > 0 /\ j > retIdx}}
     : a \in 0..(NAttempts(S) - 1)}
 
 (***************************************************************************)
